@@ -125,6 +125,9 @@ func diffCase(c *Case, lean *LeanDriver) Verdict {
 		return v
 	}
 	v.Features = features(lines[len(lines)-5])
+	if tsPinnedOffsetMulti(plan) {
+		v.Features = append(v.Features, "ts-pinned-offset-multi")
+	}
 	ans, err := lean.Ask(lines)
 	if err != nil {
 		v.Other = "lean: " + err.Error()
